@@ -31,7 +31,12 @@ Attr0 ==
       kcalHead |-> IF s = "milk_x" THEN I(90) ELSE IF s = "meat_x" THEN I(10) ELSE I(1)]]
 
 PopGrid == IF EmitFeed THEN {I(0), I(2), I(3), R(7, 2), I(40)} ELSE {I(0), I(2), I(3)}
-SupplyGrid == IF EmitFeed THEN {I(0), I(1), I(2), I(5), I(10), R(7, 3), I(60), I(200)}
+\* just short of / just beyond what the first species in the priority order needs when its herd is 40 (99.8 % and 100.1 % of
+\* the requirement, as grass): the sufficiency test is exact, there is no "nearly enough"
+NeedOf(s, p) == Mul(p, RDiv(Mul(Mul(Attr0[s].lsu, Attr0[s].factor), KNum), KDen))
+JustShort == RDiv(Mul(NeedOf("milk_x", I(40)), R(998, 1000)), EffG)
+JustOver == RDiv(Mul(NeedOf("milk_x", I(40)), R(1001, 1000)), EffG)
+SupplyGrid == IF EmitFeed THEN {I(0), I(1), I(2), I(5), I(10), R(7, 3), I(60), I(200), JustShort, JustOver}
               ELSE {I(0), I(1), I(2), I(5), I(10)}   \* gross energy on offer
 FlowGrid == {I(0), I(1), I(3)}
 
